@@ -2,6 +2,7 @@ import SpVerif.Model.GeomProto
 import SpVerif.Model.Frames
 import SpVerif.Model.Join
 import SpVerif.Model.HilbertDist
+import SpVerif.Model.Dask
 namespace SpVerif.FramesProto
 open SpVerif.Proto SpVerif.Geom SpVerif.Frames SpVerif.GeomProto
 
@@ -87,3 +88,23 @@ def run : List V → Option String
   | _ => none
 
 end SpVerif.HDistProto
+
+namespace SpVerif.DaskProto
+open SpVerif.Proto SpVerif.Geom SpVerif.Frames SpVerif.GeomProto SpVerif.FramesProto SpVerif.Dask
+
+def showBox : Option RTree.NBox → V
+  | none => V.l [V.nan, V.nan, V.nan, V.nan]
+  | some b => ofInts b
+
+/-- `dask <kind> <box> <partitions>` → `total partition_bounds cx_partitions cx_rows(global positions) pandas_cx` -/
+def run : List V → Option String
+  | [.w "dask", .w kind, bx, .l parts] => do
+    let b ← box? bx
+    let ps ← parts.mapM (fun p => p.list? >>= fun els => els.mapM (elem? kind))
+    let rows := (daskCx b ps).map (globalPos ps)
+    let pandas := cxMask b ps.flatten
+    pure ((showBox (daskTotalBounds ps)).show ++ " " ++ (V.l ((partitionBounds ps).map showBox)).show ++ " " ++
+          (ofNats (cxPartitions b ps)).show ++ " " ++ (ofNats rows).show ++ " " ++ (ofNats pandas).show)
+  | _ => none
+
+end SpVerif.DaskProto
